@@ -225,6 +225,10 @@ def classify(kind, info):
         if info.get("leak_rst_arrived_during_response_hook"):
             return "upstream-stream-leaked-when-client-reset-arrives-during-pending-response-hook"
         return "upstream-stream-leaked-after-client-reset-of-streamed-request-with-complete-response"
+    # (3) HTTP/3 request on stream id 0 towards an HTTP/1 origin that closes the connection without a complete response head:
+    #     Http1Client.read_headers tests `if self.stream_id:` (false for 0) and tells nobody, the client stream hangs
+    if kind == "client-stream-never-answered" and info.get("topo") == "h3h1" and info.get("h3_stream_id") == 0 and info.get("origin_rst") and not info.get("exc_sites"):
+        return "h3-stream-zero-http1-origin-close-not-signalled"
     return None
 
 
@@ -742,7 +746,8 @@ def run_case(ctx, opts):
             if s["rst_at"] is not None:
                 continue  # the client gave up on it; only foreign content is refutable
             if rec is None or not (rec["ended"] or rec["reset"] is not None):
-                viol("client-stream-never-answered", {"tag": tag, "record": _short(rec), "upstream": seen_up.get(tag), "origin_rst": tag in server_rst_tags}, {"forwarded": tag in seen_up})
+                viol("client-stream-never-answered", {"tag": tag, "record": _short(rec), "upstream": seen_up.get(tag), "origin_rst": tag in server_rst_tags},
+                     {"forwarded": tag in seen_up, "topo": topo, "origin_rst": tag in server_rst_tags, "h3_stream_id": 4 * h3_id[s["key"]] if topo[:2] == "h3" else None})
                 continue
             hd = dict(rec["headers"] or [])
             own_page = hd.get(b"server", b"").startswith(b"mitmproxy")
